@@ -16,7 +16,7 @@ def drv(focus, n=None, tags="verif"):
     variant = focus + ("-gcopt" if "gc_opt" in tags else "") + ("-pollopt" if "poll_opt" in tags else "")
     return dict(cmd="drv-loop", family="loop", variant=variant,
                 unix_swap=(LOOP_SWAP_OPT if "poll_opt" in tags else LOOP_SWAP), shrink=False,
-                args=args, tags=tags, timeout=dict(quick=600, thorough=3000))
+                args=args, tags=tags, netns=True, timeout=dict(quick=600, thorough=3000))
 
 
 # translator run on every check: processIO as a program of Model/LoopPio.v (obligation: = Model.process_io),
